@@ -1037,6 +1037,101 @@ def random_history(ctx: Ctx, pool, big: bool = False):
     return run
 
 
+# --------------------------------------------------------------------------- manager scripts (custom managers)
+
+
+class _Thing:
+    """Stands in for a Service / Characteristic in a manager script (hashable, has the two attributes
+    the manager looks at)."""
+
+    __slots__ = ("unique_id", "type_id", "n")
+
+    def __init__(self, n, uid):
+        self.n, self.unique_id, self.type_id = n, uid, f"thing-{n}"
+
+
+def gen_manager_script(rng) -> dict:
+    """Operations on ONE application manager (get_iid_for_obj overridden).  `policy`: the application is
+    well-behaved (recorded iids distinct, at or below the counter it starts at or far above, one object
+    per unique_id) -- then the property's demand applies; otherwise the script is arbitrary (recorded iids
+    may collide with each other and with automatic ones) and only ties the model to the code."""
+    policy = rng.random() < 0.6
+    n = rng.randrange(3, 9)
+    if policy:
+        spec = gen_manager(rng)
+        uids = list(spec["recorded"])
+        rng.shuffle(uids)
+        owner = [uids.pop() if uids and rng.random() < 0.5 else None for _ in range(n)]
+    else:
+        start = rng.randrange(0, 8)
+        spec = {"start": start, "recorded": {f"u{i}": rng.randrange(1, start + 6) for i in range(rng.choice([1, 2, 3]))}}
+        owner = [rng.choice(list(spec["recorded"]) + [None, None]) for _ in range(n)]
+    ops = []
+    for _ in range(rng.randrange(4, 16)):
+        x = rng.random()
+        if x < 0.55:
+            ops.append(["assign", rng.randrange(n)])
+        elif x < 0.8:
+            ops.append(["removeObj", rng.randrange(n)])
+        else:
+            ops.append(["removeIid", rng.choice(list(spec["recorded"].values()) + [spec["start"] + k for k in range(1, 6)])])
+    return {"policy": policy, "start": spec["start"], "recorded": spec["recorded"], "owner": owner, "ops": ops}
+
+
+def run_manager_script(sc: dict):
+    """Run the script on a real `IIDManager` subclass; returns (model line, observation, failures)."""
+    mgr = dbrig.custom_manager({"start": sc["start"], "recorded": sc["recorded"]})
+    things = [_Thing(k, uid) for k, uid in enumerate(sc["owner"])]
+    num = {id(t): t.n for t in things}
+    mops, fails = [], []
+    ever: Dict[int, Any] = {}
+    raised = None
+    for op in sc["ops"]:
+        try:
+            if op[0] == "assign":
+                t = things[op[1]]
+                exp = sc["recorded"].get(t.unique_id)
+                mops.append({"op": "explicit", "obj": t.n, "iid": exp} if exp is not None else {"op": "auto", "obj": t.n})
+                mgr.assign(t)
+            elif op[0] == "removeObj":
+                mops.append({"op": "removeObj", "obj": op[1]})
+                mgr.remove_obj(things[op[1]])
+            else:
+                mops.append({"op": "removeIid", "iid": op[1]})
+                mgr.remove_iid(op[1])
+        except KeyError:
+            raised = "KeyError"
+            break
+        if sc["policy"]:
+            held = list(mgr.iids.values())
+            dup = sorted({i for i in held if held.count(i) > 1})
+            if dup:
+                fails.append(("C17:custom-manager-duplicate-iid",
+                              f"application manager (counter started at {sc['start']}, recorded {sc['recorded']}): after {op} the iid(s) {dup} "
+                              f"are held by two objects each"))
+                break
+            for t2, i in mgr.iids.items():
+                first = ever.setdefault(i, t2)
+                if first is not t2:
+                    fails.append(("C17:custom-manager-iid-reissued",
+                                  f"application manager (counter started at {sc['start']}, recorded {sc['recorded']}): after {op} iid {i}, "
+                                  f"once object #{num[id(first)]}'s, is handed to object #{num[id(t2)]}"))
+                    break
+            if any(mgr.objs.get(i) is not t2 for t2, i in mgr.iids.items()):
+                fails.append(("C17:custom-manager-maps-inconsistent",
+                              f"application manager: after {op} get_obj(get_iid(x)) is not x for some assigned object"))
+            if fails:
+                break
+    if raised:
+        obs = {"err": raised}
+    else:
+        obs = {"counter": mgr.counter, "iids": sorted([num[id(t)], i] for t, i in mgr.iids.items()),
+               "objs": sorted([i, num[id(t)]] for i, t in mgr.objs.items())}
+    mx = max([sc["start"] + len(sc["ops"]) + 2] + list(sc["recorded"].values()))
+    line = {"layer": "db", "op": "c17m", "start": sc["start"], "objects": len(things), "maxIid": mx, "ops": mops}
+    return line, obs, fails
+
+
 def line_of(h: dict, model_subs=None, model_ops=None) -> dict:
     return {"layer": "db", "op": "c17", "bridge": h["bridge"], "mainAid": h.get("mainAid", 1), "main": h["main"],
             "ops": model_ops if model_ops is not None else h["ops"],
@@ -1097,8 +1192,10 @@ def run(ctx: Ctx):
         "and a subscription scenario (one PUT subscribing several pairs, single-pair (un)subscribes by other connections, value "
         "changes on every pair: an event reaches exactly the connections that themselves subscribed to that pair). Services are "
         "shipped ones or hand-assembled with a type repeated inside one add_characteristic call / in a later call. "
-        "Non-trivial: the history contains a removal/re-assignment, a rejected operation, or an automatic aid beyond 7; "
-        "distinct by the op list."
+        "25% of the histories give accessories an application IIDManager subclass (recorded + automatic iids). A second stream "
+        "runs manager scripts (assign / remove_obj / remove_iid on one application manager, well-behaved or arbitrary) against "
+        "the manager-level model. Non-trivial: the history contains a removal/re-assignment, a rejected operation, or an "
+        "automatic aid beyond 7; distinct by the op list."
     )
     pool = dbrig.spec_pool(Loader())
     runs: List[Run] = []
@@ -1150,6 +1247,20 @@ def run(ctx: Ctx):
         if mv != o:
             key = next((k for k in ("results", "accessories", "managers", "resolve", "probes", "subs") if mv.get(k) != o.get(k)), "?")
             ctx.disagree("c17-history:" + key, r.h, _short(mv.get(key)), _short(o.get(key)))
+    # manager scripts: the model with explicit iids (Iid.assignAt) against a real IIDManager subclass
+    scripts = [gen_manager_script(ctx.rng) for _ in range(ctx.n(150, 2500))]
+    ran = [run_manager_script(sc) for sc in scripts]
+    mmodel = run_model_parallel("C17", [line for line, _, _ in ran])
+    for sc, (line, ob, fails), mm in zip(scripts, ran, mmodel):
+        st.traces_validated += 1
+        st.case(["manager-script", sc], any(o[0] != "assign" for o in sc["ops"]))
+        st.hit("outcome", "manager-script:" + ("policy" if sc["policy"] else "arbitrary") + (":KeyError" if "err" in ob else ""))
+        for sig, desc in fails:
+            if not any(f.signature == sig for f in ctx.failures):
+                ctx.fail(sig, desc, {"kind": "manager-script", "script": sc})
+        got = {"err": mm["err"]} if "err" in mm else {k: sorted(mm.get(k) or []) if k != "counter" else mm.get(k) for k in ("counter", "iids", "objs")}
+        if "fatal" in mm or got != ob:
+            ctx.disagree("c17-manager-script", sc, _short(mm), _short(ob))
     for i in sorted({0, min(5, len(runs) - 1), len(runs) - 1} if runs else set()):
         r, o = runs[i], obs[i]
         st.sample(
@@ -1173,6 +1284,11 @@ def search(ctx: Ctx):
     from pyhap.loader import Loader
 
     pool = dbrig.spec_pool(Loader())
+    for _ in range(2000):
+        sc = gen_manager_script(ctx.rng)
+        for sig, desc in run_manager_script(sc)[2]:
+            if not any(f.signature == sig for f in ctx.failures):
+                ctx.fail(sig, desc, {"kind": "manager-script", "script": sc})
     for i in range(1200):
         try:
             r = random_history(ctx, pool, big=i % 3 == 0)
@@ -1188,6 +1304,14 @@ def search(ctx: Ctx):
 
 
 def replay(ctx: Ctx, r):
+    if r.get("kind") == "manager-script":
+        _, ob, fails = run_manager_script(r["script"])
+        print("manager script:", json.dumps(r["script"])[:600])
+        print("final state:", json.dumps(ob)[:400])
+        for sig, desc in fails:
+            print("FAILS:", sig, desc)
+        print("verdict:", "property violated on this input" if fails else "holds on this input")
+        return 1 if fails else 0
     h = r["h"]
     run_, obs = replay_history(h, ctx)
     print("history:", json.dumps(h)[:600])
